@@ -22,11 +22,17 @@ RULE = ("PAIRS (A, B) of geometries (point clouds and meshes of independent topo
         "(driver op qattr with the explicit parameters: a function of x, origin_c, range, bits only) and equals the "
         "float32 expression float(k)*(range/float(2^bits-1))+origin_c for the integer k >= 0 exposed by the decode with "
         "skipped transform (grid membership); equal coordinates decode to one bit pattern inside the geometry. Oracle "
-        "per pair: every coordinate shared by A and B decodes to the same bit pattern in both.")
+        "per pair: every coordinate shared by A and B decodes to the same bit pattern in both."
+        ' A third of the Encoder-API pairs runs as a history on ONE draco::Encoder object (op encdech: A, then B '
+        'with the explicit parameters set again); random command scripts on the real Options / EncoderOptions '
+        'classes against the Lean option-store model (props/options_cases.py: SetAttributeExplicitQuantization '
+        'stores origin / range through Options::SetVector / SetFloat).')
 THEOREM_BACKED = ('explicit_pointwise (decoded = dequantize(quantize x), any FloatOps instance), on_grid (exact), '
                   'on_grid_float_partial (relative-error model: k <= 2^bits-1 only for bits <= 20, sharp: '
                   'quantized_exceeds_max_witness_21), on_grid_float_grid (grid-exact rounding model: bits <= 22), '
-                  'decodeParameters_encodeParameters_roundtrip; the oracle demands k >= 0 and tags k > 2^bits-1')
+                  'decodeParameters_encodeParameters_roundtrip; cited from C01: options_get_set_float / '
+                  'draco_options_attribute_resolution (the explicit origin / range pass the option store as float bit '
+                  'patterns, attribute -> global -> default); the oracle demands k >= 0 and tags k > 2^bits-1')
 CORRESPONDENCE_ONLY = "that the codec applies exactly this pipeline to explicitly quantized attributes under every method is what the oracle samples"
 EXPLANATION = ("the theorem speaks about AttributeQuantizationTransform; the end-to-end statement (no method, topology or option "
                "leaks into the value) is checked on real encodes of pairs")
@@ -280,6 +286,12 @@ def cases_for_sides(sides, pair_id):
         model = f"qattr {bits} {nc} {','.join(map(str, flat))} {f32_bits(R)} {','.join(str(f32_bits(o)) for o in org)}"
         op = "encdec " + " ".join(s.toks) + " -- " + s.g.to_text()
         other = sides[1 - si] if len(sides) > 1 else None
+        history = False
+        if si == 1 and other is not None and "expert=1" not in s.toks and "expert=1" not in other.toks and pair_id % 3 == 0:
+            # the tiling scenario: ONE draco::Encoder object encodes A and then B, the explicit parameters being set
+            # before each (op `encdech`; the output has the format of `encdec` for B)
+            op = "encdech " + " ".join(other.toks) + " -- " + other.g.to_text() + " ;; " + " ".join(s.toks) + " -- " + s.g.to_text()
+            history = True
 
         def oracle(hout, case, s=s, other=other, second=(si == 1)):
             v, out = s.analyse(hout)
@@ -324,7 +336,7 @@ def cases_for_sides(sides, pair_id):
             return None
 
         tags = [f"pair-side:{'AB'[si]}", "mesh" if s.g.is_mesh else "pc", f"explicit-attribute:{ {0: 'position', 3: 'texcoord', 4: 'generic'}.get(att_type, att_type) }x{nc}",
-                "api:expert" if "expert=1" in s.toks else "api:encoder", "bits:" + ("1-7" if bits < 8 else "8-15" if bits < 16 else "16-22" if bits < 23 else "23-30")]
+                "api:expert" if "expert=1" in s.toks else ("api:encoder-object-reused" if history else "api:encoder"), "bits:" + ("1-7" if bits < 8 else "8-15" if bits < 16 else "16-22" if bits < 23 else "23-30")]
         for t in s.toks:
             if t.startswith(("method=", "submethod=", "builtin=")):
                 tags.append(t.replace("=", ":"))
